@@ -14,7 +14,11 @@ Account = Tuple[str, str]
 def flows(spec: Dict[str, Any]) -> List[Tuple[Account, str, Fraction]]:
     """[(account, kind, amount)] with kind in acquired / sent / received."""
     if spec["table"] == "in":
-        return [((spec["exchange"], spec["holder"]), "acquired", F(spec["crypto_in"]))]
+        out = [((spec["exchange"], spec["holder"]), "acquired", F(spec["crypto_in"]))]
+        if F(spec.get("crypto_fee") or 0) > 0:
+            # a fee paid in crypto leaves the same account (RP2 models it as an artificial fee-only disposal)
+            out.append(((spec["exchange"], spec["holder"]), "sent", F(spec["crypto_fee"])))
+        return out
     if spec["table"] == "out":
         return [((spec["exchange"], spec["holder"]), "sent", F(spec["crypto_out_no_fee"]) + F(spec.get("crypto_fee") or 0))]
     return [
@@ -39,9 +43,11 @@ def balances(specs: Sequence[Dict[str, Any]], to_date: Optional[date] = None) ->
 def overdraft_verdict(specs: Sequence[Dict[str, Any]], tol: Fraction = Fraction(1, 10**10)) -> Tuple[str, Optional[Account], Fraction]:
     """'must_reject' | 'must_accept' | 'either', the account concerned and the deepest dip that decides it.
 
-    Transactions are replayed in instant order; the property does not fix an order inside a group of equal instants,
-    so: must_reject iff under EVERY order of every group some balance drops below -tol; must_accept iff under every
-    order all balances stay >= 0; anything else may go either way."""
+    Transactions are replayed in instant order. Inside a group of equal instants the property fixes one thing only: what is
+    acquired at an instant is available to what leaves at that instant (it names rejecting a same-instant buy+sell as too strict);
+    the order among the transfers and disposals of one instant is left open. So: must_reject iff under EVERY order of some group a
+    balance drops below -tol; must_accept iff all balances stay >= 0 under every order that applies the group's IN-table rows
+    first; anything else may go either way."""
     groups: Dict[float, List[Dict[str, Any]]] = {}
     for s in specs:
         groups.setdefault(parse_ts(s["timestamp"]).timestamp(), []).append(s)
@@ -52,7 +58,12 @@ def overdraft_verdict(specs: Sequence[Dict[str, Any]], tol: Fraction = Fraction(
     worst = Fraction(0)
     for t in sorted(groups):
         g = groups[t]
-        perms = itertools.permutations(g) if len(g) <= 4 else [tuple(g)]
+        perms = list(itertools.permutations(g)) if len(g) <= 4 else [tuple(g)]
+        ins = tuple(x for x in g if x["table"] == "in")
+        rest = [x for x in g if x["table"] != "in"]
+        ins_first = {tuple(id(x) for x in ins + p) for p in (itertools.permutations(rest) if len(rest) <= 4 else [tuple(rest)])}
+        if len(g) > 4:
+            perms = [ins + tuple(rest)]
         group_all_below = True
         end_state: Optional[Dict[Account, Fraction]] = None
         for perm in perms:
@@ -69,10 +80,10 @@ def overdraft_verdict(specs: Sequence[Dict[str, Any]], tol: Fraction = Fraction(
                     b[acct] = b.get(acct, Fraction(0)) + delta
                     if delta < 0 and b[acct] < min_dip:
                         min_dip, dip_acct = b[acct], acct
-            if min_dip < 0:
+            if min_dip < 0 and tuple(id(x) for x in perm) in ins_first:
                 ever_negative = True
-                if min_dip < worst:
-                    worst, worst_acct = min_dip, dip_acct
+            if min_dip < worst:
+                worst, worst_acct = min_dip, dip_acct
             if not min_dip < -tol:
                 group_all_below = False
             end_state = b
